@@ -28,8 +28,13 @@ PROPS["C20"] = dict(
          "(usual default soft limits are 256 and 1024; a tree is not limited by them). rapid: about one tree in 120 gets 120..500 such files and room 16/32/64/100, one in 200 only the limit; unit manyfiles: 300 flat files/room 32, "
          "200 files in nested directories/room 16 over two rounds, 260 with a directory filter/room 100 (thorough adds 1200/room 250, 700 non-recursive with a suffix filter/room 64 after a removed sub-folder, 2100/room 1000). "
          "Where the limit cannot be read or lowered the case runs without it (class tree_fd_limit_unavailable). HUGE FILES (unit huge, thorough tier only): a tree {a, m-big, z} whose m-big is a sparse file of 2^32-1, 2^32 or 2^32+4097 bytes (one per shard) with single non-zero bytes at 0, 2^31-1, 2^31, 2^32-2 .. 2^32+1, size/3, size-1, "
-         "round-tripped and compared by size and content; needs the file's size in real scratch space for the extracted copy: the free space is looked at first and the case is skipped with an inconclusive note below size*9/8 + 4 GiB. Excluded as outside the documented domain: relative or unclean source paths, "
-         "double slashes, symlinks, devices, unreadable files, the archive placed inside the source dir. "
+         "round-tripped and compared by size and content; needs the file's size in real scratch space for the extracted copy: the free space is looked at first and the case is skipped with an inconclusive note below size*9/8 + 4 GiB. FILE MODES: a source file may carry a permission mode of its own (0000, 0200 write-only, 0111 execute-only, 0400, 0444, 0644, 0755, 0600, 0222, 0040, 0004, 0333, and with the setuid/setgid/sticky bits 4755, 2644, 1644, 4000, 7777 - inert on a data file in the scratch directory), "
+         "applied with chmod after the content is written and then tried out with an ACTUAL open for reading: a regular file that the zipping process can read is in the domain whatever its permission bits say (a privileged process - root, CAP_DAC_OVERRIDE - reads files without any read bit), "
+         "and the round trip must reproduce it like any other selected file (relative path and content; the mode of the extracted file is not judged); when the open fails the file is an unreadable file, stays excluded and gets 0644 back (class tree_file_mode_reverted_process_cannot_read). "
+         "rapid: one file in four draws a mode; unit modes: every mode on a file in the source directory and on a file in a sub-directory x filters nil / suffix / keep-only directory / exclude directory x recursive flag x one round / two rounds with every file rewritten in between "
+         "(classes tree_file_mode:<mode>, tree_selected_file_without_any_read_bit). "
+         "Excluded as outside the documented domain: relative or unclean source paths, "
+         "double slashes, symlinks, devices, files that the zipping process cannot open for reading, modes on directories and on files of the destination, the archive placed inside the source dir. "
          "archive case = list of zip entries (name, kind file/dir/symlink mode bits, payload, stored or deflated) written with archive/zip, "
          "optionally with 1..3 corrupted bytes; names from '..', '.', empty and plain segments joined by '/' or '\\\\', up to 8 leading '../', "
          "absolute prefixes ('/', '//', the sandbox root, the destination itself), trailing slash, duplicates and file/dir clashes; the "
@@ -57,6 +62,7 @@ PROPS["C20"] = dict(
                  "in the case (JSON: plain string if valid UTF-8, {hex: ...} otherwise)"],
     units=[
         dict(name="tree", run="^TestC20TreeRapid$", checks=(400, 1500), shards=(4, 16), timeout=(200, 1200), shrinktime=("15s", "40s")),
+        dict(name="modes", run="^TestC20TreeModes$", shards=(2, 4), timeout=(200, 1200)),
         dict(name="manyfiles", run="^TestC20TreeManyFiles$", shards=(3, 6), timeout=(200, 1200)),
         dict(name="archive", run="^TestC20ArchiveRapid$", checks=(1500, 8000), shards=(4, 16), timeout=(200, 1200), shrinktime=("15s", "40s")),
         dict(name="hostile", run="^TestC20ArchiveExhaustive$", shards=(8, 16), timeout=(200, 1200)),
